@@ -21,7 +21,7 @@ import (
 // C18 — token keys encode canonically and key identifiers are derived from them.
 type c18 struct{ base }
 
-func init() { core.Register(c18{base{"C18", "exploration", 300, 8000}}) }
+func init() { core.Register(c18{base{"C18", "exploration", 3000, 80000}}) }
 
 func (c18) Describe() core.Description {
 	return core.Description{
